@@ -433,18 +433,86 @@ def make_rules(v, types, recorder=None):
     return rules
 
 
+class PartialNodeFactory(DefaultOptNodeFactory):
+    """a node factory that sometimes has no node to offer (get_node() -> None); notes every answer"""
+
+    def __init__(self, types, p_none):
+        super().__init__(types)
+        self.types = list(types)
+        self.p_none = p_none
+        self.log = []
+
+    def get_node(self, **kwargs):
+        if self.p_none and pyrandom.random() < self.p_none:
+            self.log.append(None)
+            return None
+        node = super().get_node(**kwargs)
+        self.log.append(self.types.index(node.content['name']))
+        return node
+
+
+def explain_attempt(tree, seg, req_md, md, mn, mx):
+    """choices (Factory.v encoding for a partial factory: draw 0 = None, k+1 = type k) that make
+    the model's `attempt` consume exactly the get_node answers `seg` and build `tree`; None when
+    there is no explanation.  Backtracking over arity draws and growth coins."""
+    if seg[0] is None:
+        return [0] if tree is None and len(seg) == 1 else None
+    if tree is None or tree[0] != seg[0]:
+        return None
+    if req_md <= 1:
+        return [tree[0] + 1] if len(seg) == 1 and not tree[1] else None
+
+    def grow(children, h, pos):
+        for n in range(max(len(children), mn), mx + 1):
+            for ch, p in slots(children, 0, n, h, pos):
+                yield [n - mn] + ch, p
+
+    def slots(children, ci, remaining, h, pos):
+        if remaining == 0:
+            if ci == len(children):
+                yield [], pos
+            return
+        if pos >= len(seg):
+            return
+        e = seg[pos]
+        if e is None:
+            for ch, p in slots(children, ci, remaining - 1, h, pos + 1):
+                yield [0] + ch, p
+            return
+        if ci >= len(children) or children[ci][0] != e:
+            return
+        child = children[ci]
+        may = not (md - 1 <= h + 1)
+        if not may:
+            if not child[1]:
+                for ch, p in slots(children, ci + 1, remaining - 1, h, pos + 1):
+                    yield [e + 1] + ch, p
+            return
+        if not child[1]:
+            for ch, p in slots(children, ci + 1, remaining - 1, h, pos + 1):
+                yield [e + 1, 0] + ch, p
+        for gc, p1 in grow(child[1], h + 1, pos + 1):
+            for ch, p2 in slots(children, ci + 1, remaining - 1, h, p1):
+                yield [e + 1, 1] + gc + ch, p2
+    for ch, p in grow(tree[1], 0, 1):
+        if p == len(seg):
+            return [tree[0] + 1] + ch
+    return None
+
+
 def observe_factory(case):
     md, mn, mx, arg, nt, v, seed = (case[k] for k in ('md', 'mn', 'mx', 'arg', 'nt', 'v', 'seed'))
+    p_none = case.get('p_none', 0)
     types = TYPES[:nt]
-    seen = []
+    nf = PartialNodeFactory(types, p_none)
+    seen = []           # (tree shown to the verifier, number of get_node answers so far)
     state = {'on': True}
 
     def recorder(g):
         if state['on']:
-            seen.append(to_tree(g, types))
+            seen.append((to_tree(g, types), len(nf.log)))
         return True
     verifier = GraphVerifier(make_rules(v, types, recorder))
-    nf = DefaultOptNodeFactory(types)
     req = GraphRequirements(max_depth=md, min_arity=mn, max_arity=mx)
     pyrandom.seed(seed)
     try:
@@ -452,24 +520,51 @@ def observe_factory(case):
     except ValueError:
         g = None
     state['on'] = False
-    if g is None:
-        return {'attempts': seen, 'result': None, 'accepted': False, 'depth': 0, 'nodes': []}
-    return {'attempts': seen, 'result': to_tree(g, types), 'accepted': verifier(g) is True, 'depth': g.depth,
-            'nodes': [types.index(n.content['name']) for n in g.nodes]}
+    # attempts in order: a None answer at the start of an attempt is an attempt of its own
+    attempts, choices, pos, ok = [], [], 0, True
+    eff = arg if arg else md
+    for tree, end in seen:
+        while pos < end and nf.log[pos] is None:
+            attempts.append(None)
+            choices.append([0])
+            pos += 1
+        attempts.append(tree)
+        if p_none:
+            ch = explain_attempt(tree, nf.log[pos:end], md, eff, mn, mx)
+            ok = ok and ch is not None
+            choices.append(ch or [])
+        pos = end
+    while pos < len(nf.log) and nf.log[pos] is None:
+        attempts.append(None)
+        choices.append([0])
+        pos += 1
+    o = {'attempts': attempts, 'choices': choices if p_none else [], 'explained': ok and pos == len(nf.log),
+         'result': None, 'accepted': False, 'depth': 0, 'nodes': []}
+    if g is not None:
+        o.update(result=to_tree(g, types), accepted=verifier(g) is True, depth=g.depth,
+                 nodes=[types.index(n.content['name']) for n in g.nodes])
+    return o
 
 
 def c_fobs(o):
-    return '(mkFObs %s %s %s %s %s)' % (c_list([c_tree(t) for t in o['attempts']], 'tree'),
-                                       c_opt(o['result'], c_tree, 'tree'), c_bool(o['accepted']),
-                                       c_nat(max(0, o['depth'])), c_list([c_nat(x) for x in o['nodes']], 'nat'))
+    return '(mkFObs %s %s %s %s %s %s)' % (
+        c_list([c_opt(t, c_tree, 'tree') for t in o['attempts']], 'option tree'),
+        c_list([c_list([c_nat(x) for x in ch], 'nat') for ch in o['choices']], 'list nat'),
+        c_opt(o['result'], c_tree, 'tree'), c_bool(o['accepted']),
+        c_nat(max(0, o['depth'])), c_list([c_nat(x) for x in o['nodes']], 'nat'))
 
 
 def c_factory_case(case, o):
-    return '(%s, %s, %s, %s, %s)' % (c_vkind(case['v']), c_req(case['md'], case['mn'], case['mx']),
-                                     c_opt(case['arg'], c_nat, 'nat'), c_nat(case['nt']), c_fobs(o))
+    return '(%s, %s, %s, %s, %s, %s)' % (c_vkind(case['v']), c_req(case['md'], case['mn'], case['mx']),
+                                         c_opt(case['arg'], c_nat, 'nat'), c_bool(bool(case.get('p_none'))),
+                                         c_nat(case['nt']), c_fobs(o))
 
 
-FN_F = 'fun c => match c with (v, rq, arg, nt, o) => [f_agree v rq arg nt o; f_holds rq arg o] end'
+def low_arity_nodes(t, mn):
+    return (1 if t[1] and len(t[1]) < mn else 0) + sum(low_arity_nodes(k, mn) for k in t[1])
+
+
+FN_F = 'fun c => match c with (v, rq, arg, pa, nt, o) => [f_agree v rq arg pa nt o; f_holds rq arg pa o] end'
 
 
 def eval_factory(ctx, group, cases_in, canary=False):
@@ -496,11 +591,19 @@ def eval_factory(ctx, group, cases_in, canary=False):
             if not ag and not ho:
                 ctx.canaries_caught += 1
         res = res[:-n_can]
+    low = sum(1 for case, o in meta if case.get('p_none') and o['result'] and low_arity_nodes(o['result'], case['mn']))
+    if low:
+        ctx.notes.append('%s: %d graphs produced with a PARTIAL node factory (get_node() may return None) contain a '
+                         'node with fewer than min_arity parents; the arity lower bound is claimed for total node '
+                         'factories only (see docs/C20.md)' % (group, low))
     for (case, o), (ag, ho) in zip(meta, res):
         c = dict(case, kind='factory')
         size = tree_nodes(o['result']) if o['result'] else 0
+        if not o['explained']:
+            ctx.disagree(group, c, 'no choice sequence of the model explains the node factory log of an attempt')
         ctx.count(group, key=tuple(sorted((k, repr(x)) for k, x in case.items())), nontrivial=size >= 2,
                   max_depth=case['md'], arity='%d-%d' % (case['mn'], case['mx']), verifier=case['v'][0],
+                  node_factory='partial' if case.get('p_none') else 'total',
                   attempts=min(len(o['attempts']), 5) if len(o['attempts']) < 1000 else 1001,
                   outcome='graph' if o['result'] else 'ValueError', size=min(size, 40) // 5 * 5)
         if not ho:
@@ -514,7 +617,7 @@ def eval_factory(ctx, group, cases_in, canary=False):
 def observe_population(case):
     md, mn, mx, nt, v, seed, ps = (case[k] for k in ('md', 'mn', 'mx', 'nt', 'v', 'seed', 'pop_size'))
     types = TYPES[:nt]
-    nf = DefaultOptNodeFactory(types)
+    nf = PartialNodeFactory(types, case.get('p_none', 0))
     generated = []
     raised = [False]
 
@@ -558,15 +661,19 @@ def c_pobs(o):
         c_list([c_nat(max(0, d)) for d in o['depths']], 'nat'))
 
 
-FN_P = 'fun c => match c with (v, rq, ps, o) => [p_agree v ps o; p_holds rq ps o] end'
+FN_P = 'fun c => match c with (v, rq, pa, ps, o) => [p_agree v ps o; p_holds rq pa ps o] end'
+
+
+def c_population_case(case, o):
+    return '(%s, %s, %s, %s, %s)' % (c_vkind(case['v']), c_req(case['md'], case['mn'], case['mx']),
+                                     c_bool(bool(case.get('p_none'))), c_nat(case['pop_size']), c_pobs(o))
 
 
 def eval_population(ctx, group, cases_in, canary=False):
     cases, meta = [], []
     for case in cases_in:
         o = observe_population(case)
-        cases.append('(%s, %s, %s, %s)' % (c_vkind(case['v']), c_req(case['md'], case['mn'], case['mx']),
-                                           c_nat(case['pop_size']), c_pobs(o)))
+        cases.append(c_population_case(case, o))
         meta.append((case, o))
     n_can = 0
     if canary:
@@ -575,8 +682,7 @@ def eval_population(ctx, group, cases_in, canary=False):
         assert o['result'] and len(o['result']) == 3
         o['result'][2] = o['result'][0]               # a duplicate inside the population
         o['pairs'][1] = True
-        cases.append('(%s, %s, %s, %s)' % (c_vkind(case['v']), c_req(case['md'], case['mn'], case['mx']),
-                                           c_nat(case['pop_size']), c_pobs(o)))
+        cases.append(c_population_case(case, o))
         n_can = 1
         ctx.canaries += 1
     res = ctx.coq_cases(group, REQ_F, FN_P, cases, 2, shard=60)
@@ -618,7 +724,10 @@ def run_generators(ctx):
         for i in range(per):
             v = ['VAll'] if i == 0 else pick_verifier(r, md, nt)
             arg = None if i % 4 else r.choice([None, md, r.randint(2, 6)] if md > 1 else [None, 1])
-            cases.append({'md': md, 'mn': mn, 'mx': mx, 'arg': arg, 'nt': nt, 'v': v, 'seed': r.randrange(10 ** 6)})
+            case = {'md': md, 'mn': mn, 'mx': mx, 'arg': arg, 'nt': nt, 'v': v, 'seed': r.randrange(10 ** 6)}
+            if i % 5 == 3:
+                case['p_none'] = r.choice([0.15, 0.3, 0.5])     # a node factory that sometimes returns None
+            cases.append(case)
     # attempt limit, empty arity range, override quirks (see docs/C20.md)
     for md, mn, mx in [(1, 1, 1), (2, 1, 2), (2, 2, 2)]:
         cases.append({'md': md, 'mn': mn, 'mx': mx, 'arg': None, 'nt': 2, 'v': ['VNever'], 'seed': r.randrange(10 ** 6)})
@@ -639,6 +748,8 @@ def run_generators(ctx):
         md, mn, mx, nt = r.choice(grid)
         cases.append({'md': md, 'mn': mn, 'mx': mx, 'nt': nt, 'v': pick_verifier(r, md, nt),
                       'seed': r.randrange(10 ** 6), 'pop_size': r.choice([0, 1, 2, 3, 3, 5, 8, 12])})
+        if r.random() < 0.2:
+            cases[-1]['p_none'] = 0.3
     # more graphs requested than exist: the attempt limit ends the loop with a short population
     for nt, ps in [(1, 2), (2, 3), (3, 5)][:ctx.pick(2, 3)]:
         cases.append({'md': 1, 'mn': 1, 'mx': 1, 'nt': nt, 'v': ['VAll'], 'seed': r.randrange(10 ** 6), 'pop_size': ps})
